@@ -113,6 +113,13 @@ func findElemInObj(
 		return object.BuiltInNil
 	}
 
+	// NOTE: an err object held as a prop (like abstract props of Either) must be copied,
+	// otherwise its stacktrace is shared by all evaluations
+	if err, ok := ret.(*object.PanErr); ok {
+		copied := *err
+		return &copied
+	}
+
 	return ret
 }
 
